@@ -201,7 +201,7 @@ Proof.
     { destruct (B n k0) as [w' [L' _]]; [rewrite E; left; reflexivity|].
       apply in_keys_zlookup. unfold Keys_ok in *.
       rewrite <- (Forall2_tel_keys _ _ _ (reduce_tel _ _ _ _ _ _ ND Hi H)). eapply zlookup_in. exact L'. }
-    destruct (reduce_runs_shape _ _ _ _ _ _ _ _ ND Hi H L) as [w' [reruns [fresh [L' [R [Fa [Sh Len]]]]]]].
+    destruct (reduce_runs_shape _ _ _ _ _ _ _ _ ND Hi H L) as [w' [reruns [fresh [L' [R [Fa [Sh [Len _]]]]]]]].
     pose proof (wids_nodup _ _ _ Hi' L') as Nw. rewrite R. apply NoDup_app_intro.
     - apply short_nodup. destruct t; try lia. cbn in Tok. unfold results_ok in Tok. lia.
     - destruct Sh as [W|[k [_ [_ W]]]]; rewrite W in Nw; exact (NoDup_app_r _ _ Nw).
@@ -209,7 +209,7 @@ Proof.
   assert (forall n k, In k (runs_of n cs) -> In (n, k) old -> False) as Cc.
   { intros n k Hk Hold.
     destruct (O (n, k)) as [w [L Hw]]; [apply in_app_iff; right; exact Hold|]. cbn [fst snd] in *.
-    destruct (reduce_runs_shape _ _ _ _ _ _ _ _ ND Hi H L) as [w' [reruns [fresh [L' [R [Fa [Sh Len]]]]]]].
+    destruct (reduce_runs_shape _ _ _ _ _ _ _ _ ND Hi H L) as [w' [reruns [fresh [L' [R [Fa [Sh [Len _]]]]]]]].
     pose proof (wids_nodup _ _ _ Hi' L') as Nw. rewrite R in Hk. apply in_app_iff in Hk. destruct Hk as [Hk|Hk].
     - destruct (Fa k Hk) as [Ho _]. exact (Own n k Ho Hold).
     - destruct Sh as [W|[k1 [Ho [_ W]]]]; rewrite W in Nw.
